@@ -289,7 +289,12 @@ def exec_window(window, optimize, via_jump):
     except Exception as e:  # noqa: BLE001
         return {'asm': 'crash:' + rt.crash_sig(e)}
     mod = rt.load_module(b)
-    r = rt.run_module(mod, {}, max_ticks=300, keep=True)
+    wild = []
+
+    def watch(cpu_, n_):
+        if not 0 <= cpu_.pc <= len(mod.code):
+            wild.append(cpu_.pc)
+    r = rt.run_module(mod, {}, max_ticks=300, keep=True, on_tick=watch)
     cpu = r.cpu
     def cv(c):
         if c is None:
@@ -306,6 +311,9 @@ def exec_window(window, optimize, via_jump):
     res['frame'] = [cv(c) for c in fr.cells] if fr is not None else None
     res['globals'] = [cv(c) for c in cpu.globals_segment.cells]
     res['n_instr'] = r.ticks
+    # the window must leave alone what lies below it (main's return address and the guard), and control must stay inside
+    # the code section; otherwise it is not something the compiler can emit and has no behaviour to preserve
+    res['escaped'] = bool(wild) or len(res['stack']) < 2 or res['stack'][1] != ['STRING', 'guard']
     return res
 
 
@@ -339,11 +347,15 @@ def run_windows(case):
             # already a machine fault, so there is no defined behaviour to preserve
             st['windows_illformed_skipped'] = st.get('windows_illformed_skipped', 0) + 1
             continue
+        if a.get('escaped'):
+            st['windows_illformed_skipped'] = st.get('windows_illformed_skipped', 0) + 1
+            st['windows_escaping_skipped'] = st.get('windows_escaping_skipped', 0) + 1
+            continue
         st['windows_wellformed'] = st.get('windows_wellformed', 0) + 1
         if oc[0] == 'trap':
             st['window_traps'] += 1
-        ca = {k: v for k, v in a.items() if k != 'n_instr'}
-        cb = {k: v for k, v in b.items() if k != 'n_instr'}
+        ca = {k: v for k, v in a.items() if k not in ('n_instr', 'escaped')}
+        cb = {k: v for k, v in b.items() if k not in ('n_instr', 'escaped')}
         if a.get('n_instr') != b.get('n_instr'):
             st['windows_changed_by_optimize'] += 1
         if ca != cb:
